@@ -1,6 +1,7 @@
 package main
 
 import (
+	"fmt"
 	"sort"
 	"strings"
 
@@ -95,6 +96,65 @@ func notPkgs(name string, pkgs ...string) EngineSpec {
 		}
 		return true
 	}}
+}
+
+// registeredUnder keeps the obligations of the methods of the evaluator types registered
+// under the given keywords (resolved from the registries' init stores, so that renaming the
+// type does not empty the filter).
+func registeredUnder(name string, keywords ...string) EngineSpec {
+	return EngineSpec{Name: name, Filter: func(w *World, o Obligation) bool {
+		for _, tn := range registeredTypeNames(w, keywords) {
+			if strings.Contains(o.Func, "(*"+tn+")") || strings.Contains(o.Func, "("+tn+")") || strings.HasSuffix(o.Func, "."+tn) {
+				return true
+			}
+		}
+		return false
+	}}
+}
+
+var regTypeMemo = map[string][]string{}
+
+func registeredTypeNames(w *World, keywords []string) []string {
+	key := fmt.Sprintf("%p|", w) + strings.Join(keywords, "\x00")
+	if v, ok := regTypeMemo[key]; ok {
+		return v
+	}
+	want := map[string]bool{}
+	for _, k := range keywords {
+		want[k] = true
+	}
+	regs := findRegistries(w)
+	seen := map[string]bool{}
+	var out []string
+	for _, fn := range w.Funcs {
+		for _, b := range fn.Blocks {
+			for _, ins := range b.Instrs {
+				mu, ok := ins.(*ssa.MapUpdate)
+				if !ok {
+					continue
+				}
+				g := rootGlobal(mu.Map)
+				isReg := false
+				for _, rg := range regs {
+					if rg.global == g {
+						isReg = true
+					}
+				}
+				k, isC := mu.Key.(*ssa.Const)
+				if !isReg || !isC || constVal(k).k != kStr || !want[constVal(k).s] {
+					continue
+				}
+				for _, t := range concreteTypesOf(mu.Value, 0) {
+					if n := namedOf(t); n != nil && !seen[n.Obj().Name()] {
+						seen[n.Obj().Name()] = true
+						out = append(out, n.Obj().Name())
+					}
+				}
+			}
+		}
+	}
+	regTypeMemo[key] = out
+	return out
 }
 
 func funcs(name string, substr ...string) EngineSpec {
@@ -206,7 +266,7 @@ func init() {
 		LevelNote: "'referenced' means the constant object is used in a comparison or case label in eval or eval/method_evaluator, whatever the dispatch shape", DesignRef: "4 REG-type; 5 C09"})
 
 	claim("C10", PropertySpec{
-		Engines: []EngineSpec{funcs("SE", "IfUnless"), funcs("PAIR", "IfUnless")},
+		Engines: []EngineSpec{registeredUnder("SE", "if", "unless"), registeredUnder("PAIR", "if", "unless")},
 		Clause: "The narrowing state is per conditional and every restore closure is run: (SE) the IfUnless evaluator is a registered singleton re-entered by nested conditionals, so it must not keep narrowing state in receiver fields across nested evaluation; (PAIR) every restore closure obtained from the condition look-ahead is called or deferred on every path.",
 		NotCovered: "which variants a branch admits",
 	}, propMeta{Technique: "receiver-alias/effect analysis of registered singletons over go/ssa + must-pass-through (acquire/release) over the SSA control-flow graph",
@@ -253,7 +313,7 @@ func init() {
 	}, propMeta{Technique: "typestate-style flag pairing over go/ssa + call-graph check of pointer provenance + whole-value-use analysis of inheritance edges + visited-set key type rule", LevelText: "all functions with a *Context parameter and all their call sites are enumerated and decided.", LevelNote: "trusts the VTA call graph for callers", DesignRef: "4 PAIR; 5 C16"})
 
 	claim("C17", PropertySpec{
-		Engines: []EngineSpec{and(rules("PAIR", "PAIR"), funcs("PAIR", "(*Do)")), and(rules("REG", "REG-type"), funcs("REG", "eval")), rules("RS", "RS-handover")},
+		Engines: []EngineSpec{and(rules("PAIR", "PAIR"), registeredUnder("PAIR", "do")), and(rules("REG", "REG-type"), funcs("REG", "eval")), rules("RS", "RS-handover")},
 		Clause: "The block evaluator is entered with the receiver in hand: where the method evaluator dispatches the block construct with a token made on the spot, the parser's last-evaluated slot — from which the block evaluator takes the receiver that block parameters are resolved against — is published right before the dispatch, with nothing in between that can write it (RS-handover; the arguments of the call have overwritten it since the receiver was evaluated). Block scope is restored on every exit (the restore closure of the block-scope preparation is deferred/called/returned on every path) and every block-parameter placeholder kind is referenced by the resolvers.",
 		NotCovered: "the types computed for block parameters",
 	}, propMeta{Technique: "must-pass-through over the SSA CFG + kind-constant exhaustiveness + dominance / may-write analysis of the parser's value slot before synthesized dispatches (registry keys resolved to evaluator types, slot readers and writers over the call graph)", LevelText: "all acquire sites in the block evaluator are enumerated and decided.", LevelNote: "error-return paths of the acquire itself are exempt", DesignRef: "4 PAIR; 5 C17"})
